@@ -6,6 +6,7 @@ package ardop
 
 import (
 	"log"
+	"sync"
 	"time"
 )
 
@@ -60,6 +61,11 @@ func (r rawReceiver) doneChan() <-chan struct{} {
 type broadcaster struct {
 	msgs     chan ctrlMsg  // send on this will broadcast
 	register chan receiver // send on this will register
+
+	// Send and Close may be called from different goroutines (the control loop and
+	// whoever closes the TNC): closed guards msgs against a send after close.
+	mu     *sync.Mutex
+	closed *bool
 }
 
 func newBroadcaster() broadcaster {
@@ -68,6 +74,8 @@ func newBroadcaster() broadcaster {
 	b := broadcaster{
 		msgs:     make(chan ctrlMsg),
 		register: make(chan receiver),
+		mu:       new(sync.Mutex),
+		closed:   new(bool),
 	}
 
 	go func() {
@@ -141,9 +149,20 @@ func (b *broadcaster) ListenState() StateReceiver {
 }
 
 func (b *broadcaster) Send(msg ctrlMsg) {
+	b.mu.Lock()
+	defer b.mu.Unlock()
+	if *b.closed {
+		return
+	}
 	b.msgs <- msg
 }
 
 func (b *broadcaster) Close() {
+	b.mu.Lock()
+	defer b.mu.Unlock()
+	if *b.closed {
+		return
+	}
+	*b.closed = true
 	close(b.msgs)
 }
